@@ -51,7 +51,7 @@ var c12Positions = []struct {
 }
 
 func init() {
-	floor := []string{"item.async", "item.async-union", "item.async-cte", "item.async-multidim", "item.once-multidim", "item.async-derived", "item.cte-dual-star", "item.fuse-dual-star", "item.fuse", "item.fuse-alias", "item.setvar", "item.async-derived-object", "item.async-join-operand", "item.cte-by-name", "item.fuse-async", "reexec.after-fault", "group.mixed-keys", "rich", "parjoin"}
+	floor := []string{"item.async", "item.async-union", "item.async-cte", "item.async-multidim", "item.once-multidim", "item.async-derived", "item.cte-dual-star", "item.fuse-dual-star", "item.fuse", "item.fuse-alias", "item.setvar", "item.async-derived-object", "item.async-join-operand", "item.cte-by-name", "item.fuse-async", "item.marker", "reexec.after-fault", "group.mixed-keys", "rich", "parjoin"}
 	for _, f := range c12Forms {
 		floor = append(floor, "form."+f.name)
 	}
@@ -225,12 +225,18 @@ func c12Matrix(c *fw.Case) {
 		d = newRichDoc(c)
 	}
 	nf, np := len(c12Forms), len(c12Positions)
-	cell := c.Idx % (nf*np + 40)
+	cell := c.Idx % (nf*np + 46)
 	if cell >= nf*np {
 		// special select items
 		var sql string
 		var feat string
-		switch (cell - nf*np) % 20 {
+		switch (cell - nf*np) % 23 {
+		case 20:
+			sql, feat = "SELECT rid, (SELECT `<-` FROM dual) AS x, (SELECT `<-` AS up FROM dual) AS y FROM t1", "item.marker"
+		case 21:
+			sql, feat = "WITH a AS (SELECT rid, (SELECT `<-` AS up FROM dual) AS x FROM t1) SELECT * FROM a", "item.marker"
+		case 22:
+			sql, feat = "WITH a AS (SELECT rid FROM t1), b AS (SELECT rid, (SELECT `<-` AS up FROM dual) AS x, `<-` FROM a) SELECT * FROM b", "item.marker"
 		case 17:
 			sql, feat = "WITH c AS (SELECT rid, n1 FROM t1) SELECT c FROM dual", "item.cte-by-name"
 		case 18:
